@@ -41,6 +41,9 @@ func checkC11(h *hx.H, c c11Case) {
 		if s.Kind == "conn" || s.Kind == "connref" {
 			gk = foldPath(append(append([]string{}, s.Scope...), s.Src...)) + s.Arrow + foldPath(append(append([]string{}, s.Scope...), s.Dst...))
 		}
+		if s.Kind == "connref" && s.Key == "" && s.Value == nil && len(s.ScopeAlt) > 0 {
+			h.Label("deletion-ref-spells-shared-container-two-ways")
+		}
 		if s.Kind == "connref" {
 			refs++
 			if deletedIn[gk] {
@@ -177,6 +180,9 @@ func genC11(t *rapid.T) c11Case {
 				s.Scope, s.Src, s.Dst = []string{"box"}, []string{a}, []string{b}
 			case 2:
 				s.Scope, s.Src, s.Dst, s.Abs = []string{"box"}, []string{a}, []string{b}, true
+				if gen.Pick(t, "altscope_c", 3, 1) == 1 {
+					s.ScopeAlt = []string{rapid.SampledFrom([]string{"BOX", "Box"}).Draw(t, "altc")}
+				}
 			default:
 				s.Scope, s.Src, s.Dst, s.Under = []string{"box"}, []string{a}, []string{b}, true
 			}
@@ -191,6 +197,10 @@ func genC11(t *rapid.T) c11Case {
 			}
 			c := conns[rapid.IntRange(0, len(conns)-1).Draw(t, "ci")]
 			s := Stmt{Kind: "connref", Scope: c.Scope, Src: c.Src, Dst: c.Dst, Arrow: c.Arrow, Abs: c.Abs || c.Under, Index: rapid.IntRange(0, 4).Draw(t, "idx")}
+			if s.Abs && len(s.Scope) == 1 && gen.Pick(t, "altscope", 2, 1) == 1 {
+				// names are case-insensitive: the two ends may spell the shared container differently
+				s.ScopeAlt = []string{rapid.SampledFrom([]string{"BOX", "Box", "bOx"}).Draw(t, "alt")}
+			}
 			switch gen.Pick(t, "rk", 3, 3, 1) {
 			case 0:
 				s.Key, s.Value = "style.stroke", strp(fmt.Sprintf("#0000%02x", i))
